@@ -811,7 +811,9 @@ def free_automaton(generating_set):
         (and their inverses)
 
     """
-    generators = list(generating_set) + [
+    # generating_set may be an iterator which can only be consumed once
+    generating_set = list(generating_set)
+    generators = generating_set + [
         words.invert_gen(g) for g in generating_set
     ]
     graph = {
